@@ -243,6 +243,12 @@ def run(chk):
     seed += 1
     cases.append({'kind': 'stack', 'seed': seed, 'ts': 0, 'cli_max': 16384, 'srv_max': 16384, 'uids': ['1.2.840.99.1'], 'sizes': [6000000],
                   'source': 'memory', 'sink': 'tmp', 'outcomes': [0], 'timeout': 15})
+    if tier != 'quick':
+        for k, (ts_, cm, sm, src, snk, size) in enumerate([(1, 16384, 4096, 'file', 'dir', 5000000), (2, 0, 0, 'memory', 'tmp', 20000000),
+                                                           (0, 4096, 65536, 'file', 'tmp', 3000000), (1, 65536, 16384, 'memory', 'dir', 9000001)]):
+            seed += 1
+            cases.append({'kind': 'stack', 'seed': seed, 'ts': ts_, 'cli_max': cm, 'srv_max': sm, 'uids': ['1.2.840.98.%d' % k], 'sizes': [size],
+                          'source': src, 'sink': snk, 'outcomes': [0], 'timeout': 15})
     results = common.bounded_map(guarded, cases, min(8, os.cpu_count() or 1), 120)
     for case, v in zip(cases, results):
         if v and v.startswith('harness:'):
